@@ -345,6 +345,11 @@ theorem step_inv (P : Params) (s s' : State) (hP : P.ignoreDelay + P.lag < P.del
       simp only
       omega
     · simp at h
+  | failedUpload =>
+    simp only [step, Option.some.injEq] at h
+    subst h
+    exact ⟨fun b hb => by have := hi.ids_lt b hb; simp only; omega, hi.ids_nodup, hi.src_sorted, hi.witness,
+      hi.gw_time, hi.gw_loaded, hi.gw_known⟩
 
 theorem init_inv (P : Params) (k : Nat) : Inv P (init k) := by
   refine ⟨by simp [init], by simp [init], by simp [init], by simp [init], ?_, ?_, ?_⟩
@@ -396,6 +401,7 @@ theorem step_gws_nil (P : Params) (s s' : State) (a : Action) (hn : s.gws = []) 
     split at h
     · simp only [Option.some.injEq] at h; subst h; exact hn
     · simp at h
+  case failedUpload => simp only [Option.some.injEq] at h; subst h; exact hn
 
 theorem run_inv (P : Params) (hT : P.levelTie = true) :
     ∀ (acts : List Action) (s s' : State), (P.ignoreDelay + P.lag < P.deleteDelay ∨ s.gws = []) →
@@ -496,6 +502,51 @@ example : (run { deleteDelay := 100, divisor := 2, ignoreDelay := 40, lag := 50,
     [.ship, .ship, .sync 0, .sync 1, .compact [1, 2], .markSource 1 3, .gc 2, .tick 50, .sync 0, .sync 1, .tick 50,
      .sync 0, .sync 1, .tick 10, .clean 1, .clean 2]).map (fun s => (s.blocks.map (·.id), s.gws.map (·.loaded)))
     = some ([3], [[3], [3]]) := by decide
+
+/-! ### the marking step of `Group.compact` is reached only after a successful upload -/
+
+/-- Control-flow skeleton of the end of `Group.compact`, read off the extracted shape
+    `[tok, lhs, kind, cond, exit]` (see extract/compact.go `uploadGuard`): the statement that runs
+    `block.Upload` is `lhs tok …`, directly in the loop body (`kind = "assign"`) or not, and the next
+    statement is `if cond { … exit }`.  The check *sees* a failed upload only if the upload's error
+    is stored, by plain assignment, into the very variable the check tests (a `:=` inside a nested
+    block declares a new variable that is gone when the check runs), and it stops the function
+    only if it returns.  `marksReached guard uploadFailed` = does control reach the loop that
+    marks the source blocks. -/
+def marksReached (guard : List String) (uploadFailed : Bool) : Bool :=
+  match guard with
+  | [tok, lhs, kind, cond, exit] =>
+    let seen := uploadFailed && tok == "=" && kind == "assign" && cond == lhs ++ " != nil"
+    !(seen && exit == "return")
+  | _ => true
+
+/-- With the code as it is, a failed upload of the compaction result never reaches the marking
+    loop — this is what the protocol's `markSource` guard ("the result is a complete block of the
+    bucket") stands for in the implementation. -/
+theorem C34_fact_marks_only_after_upload :
+    Thanos.Facts.groupCompactUploadGuard = ["=", "err", "assign", "err != nil", "return"] ∧
+    marksReached Thanos.Facts.groupCompactUploadGuard true = false ∧
+    marksReached Thanos.Facts.groupCompactUploadGuard false = true := by decide
+
+/-- the shadowing variant (`err := …` inside a retry loop) does reach the marks after a failed upload -/
+example : marksReached [":=", "err", "loop", "err != nil", "return"] true = true := by decide
+
+/-- in the model nothing can be marked on behalf of a result that never became visible: after
+    `failedUpload` the would-be result id names no block, so `markSource b r` is disabled -/
+theorem markSource_needs_result (P : Params) (s s1 : State) (b : Nat)
+    (hids : ∀ c ∈ s.blocks, c.id < s.nextId) (h : step P s .failedUpload = some s1) :
+    step P s1 (.markSource b s.nextId) = none := by
+  simp only [step, Option.some.injEq] at h
+  subst h
+  have hnone : findBlk s.blocks s.nextId = none := by
+    unfold findBlk
+    apply List.find?_eq_none.mpr
+    intro c hc
+    have := hids c hc
+    simp
+    omega
+  simp only [step, hnone]
+  split <;> simp_all
 
 /-! ## Regenerated facts -/
 
